@@ -171,10 +171,14 @@ struct Mon {
 			viol("C06", "isactive-agrees", "inside " + ev_str(e) + " control.isActive(id) is true for " + (cnt == 1 ? "id " + S(which) : S(cnt) + " ids") + " while the machine reports active state " + (m < 0 ? std::string("none") : S(m)));
 			if (cnt != (m < 0 ? 0 : 1)) viol("C01", "exactly-one-active", "inside " + ev_str(e) + " user code sees " + S(cnt) + " states reported active through control.isActive(id)");
 		}
+		if (e.active_invalid != e.machine_active_invalid)
+			viol("C06", "isactive-agrees", "inside " + ev_str(e) + " control.isActive(id) for the root's id is " + (e.active_invalid ? "true" : "false") + " while the machine's isActive(id) says " + (e.machine_active_invalid ? "true" : "false"));
 		if (!e.active_tmpl_ok) {
 			viol("C06", "isactive-agrees", "control.isActive<T>() disagrees with control.isActive(id) inside " + ev_str(e));
 			viol("C01", "exactly-one-active", "inside " + ev_str(e) + " control.isActive<T>() names a different set of active states than control.isActive(id)");
 		}
+		if (e.machine_is_active >= 0 && (e.machine_is_active != 0) != (m >= 0))
+			viol("C01", "inactive-reports-none", "inside " + ev_str(e) + " the machine's isActive() is " + (e.machine_is_active ? "true" : "false") + " while activeStateId() names " + (m < 0 ? std::string("no state") : "state " + S(m)));
 		if (!cx.skip_active && m != cx.expect_active)
 			viol("C01", "active-names-open", "inside " + ev_str(e) + " the machine reports active state " + (m < 0 ? std::string("none") : S(m)) + " but the state whose enter() ran last without exit() is " + (cx.expect_active < 0 ? std::string("none") : S(cx.expect_active)));
 		// --- C10: plan as seen through this control
@@ -869,7 +873,7 @@ uint64_t hash_op(const OpExec& x, bool neutral) {
 		h = hash_trans(h, e.request);
 		if (e.has_pending) h = hash_trans(h, e.pending);
 		if (e.has_current) h = hash_trans(h, e.current);
-		h = fnv(h, e.active, nb); h = fnv8(h, static_cast<uint64_t>(e.machine_active));
+		h = fnv(h, e.active, nb); h = fnv8(h, static_cast<uint64_t>(e.machine_active)); h = fnv8(h, static_cast<uint64_t>(e.machine_is_active));
 		h = fnv8(h, e.action.kind | e.action.a << 8 | e.action.b << 16);
 		if (e.ev_type != SUT_INVALID) { h = fnv8(h, e.ev_type); h = fnv8(h, e.ev_value); }
 		h = hash_plan(h, e.plan); h = fnv8(h, e.last_kind | e.last_result << 8);      // what the program sees through the plan feature (empty when compiled out)
